@@ -1,12 +1,24 @@
-"""C17 bounded stand-in: positions reported by the real API are faithful to the text (corpus with CRLF / CR / tabs /
-form feeds / unicode identifiers / continuation lines / no final newline)."""
+"""C17 bounded stand-in: positions reported by the real API are faithful to the text.
+
+Generated programs (user-defined functions / classes / literals only, no dependence on typeshed) x layouts
+(LF / CRLF / CR / mixed line ends, tab / 2 / 4 / 8 space indentation, form feeds, unicode identifiers incl. non-BMP,
+backslash and bracket continuation lines, decorators, multi-target assignments, doctest code in docstrings, no final
+newline, broken tails) x ways of handing the text to jedi (no path, path with identical / stale file on disk, path only,
+bytes in a declared encoding) x a small project on disk (helper module, package, a file that is only reachable by the
+text search; legacy encodings with coding cookie, BOM) x edit sequences on the same path x all query methods.
+Oracles: the text itself (own physical-line splitter), the stdlib tokenizer, ast contexts, tokenize.detect_encoding."""
 import ast
 import io
 import keyword
 import os
+import random
+import re
 import tokenize
 import traceback
+import unicodedata
 
+# ----------------------------------------------------------------------------------------------------------------
+# fixed corpus (kept from the first version of this stand-in)
 CORPUS = [
     'import os\nfrom sys import path as p\n\ndef func(a, b=1, *args, key, **kw):\n    total = a + b\n    counts = {}\n'
     '    counts[key] = total\n    counts[key] += 1\n    return total, counts\n\nclass Klass(object):\n    attr = 3\n'
@@ -21,120 +33,1001 @@ CORPUS = [
     'a = 1; b = a\nc = a if b else a\n',
 ]
 
+# ----------------------------------------------------------------------------------------------------------------
+# program generator.  Placeholders: $a..$n fresh identifiers, $v $w existing module level values, $K an existing
+# class, $C an existing call expression.  'vals' / 'classes' / 'calls' export what later blocks may use.
+TEMPLATES = [
+    dict(name='simple', text='$a = 1\n$b = $a + $v\n', vals='a b'),
+    dict(name='multi_target', text='$a = $b = $v\n$c, $d = $a, $b\n($e, ($f, $g)) = ($c, ($d, 3))\n$h, *$i = [$e, $f, $g]\n'
+                                   '[$j, $k] = $c, $d\n', vals='a c e h'),
+    dict(name='continuation', text='$a = \\\n    $v + \\\n        1\n$b = ($a,\n      $v,\n)\nif $a and \\\n        $b:\n'
+                                   '    $c = $a\n$d = [\n    $a,\n        $b]; $e = \\\n$d\n', vals='a b d'),
+    dict(name='setitem', text='$a = {}\n$a[$v] = 1\n$a[$v] += 2\n$b = [$v, $w]\n$b[0], $c = $b[1], $a\n$b[0:1] = [$c]\n',
+         vals='a b c'),
+    dict(name='func_all_params',
+         text='def $a($b, $c=1, *$d, $e, **$f):\n    """Summary $b.\n\n    >>> $g = $a(1, $e=2)\n    >>> $h = $g\n    >>> $g\n\n'
+              '    Example::\n\n        $i = $a(2, $e=3)\n        $i\n\n    Also `$a` and `$b\n    """\n'
+              '    $j = $b + $c\n    return $j, $d, $e, $f\n',
+         calls=['$a(1, 2, 3, $e=4, zz=5)', '$a($v, $e=$w)']),
+    dict(name='func_posonly_annot',
+         text='def $a($b: $K, $c: "$K" = None, /, $d: int = 0, *, $e: $K = None) -> $K:\n    return $b\n',
+         calls=['$a($v, 1, $d=2)']),
+    dict(name='decorators',
+         text='def $a($b):\n    return $b\n\ndef $c(*$d, **$e):\n    def $f($g):\n        return $g\n    return $f\n\n'
+              '@$a\n@$c(1,\n    $h=2)\ndef $i($j):\n    return $j\n\n@$a\nclass $k($K):\n    @$c($v)\n    def $l(self):\n'
+              '        pass\n',
+         calls=['$i(1)', '$c(1, 2)'], classes='k'),
+    dict(name='klass',
+         text='class $a($K):\n    """Doc of `$a`.\n\n    >>> $h = $a(1)\n    >>> $h.$c\n    """\n    $b = 3\n\n'
+              '    def __init__(self, $d, *$e):\n        self.$c = $d\n        self.$f = [$d]\n        self.$f[0] = $d\n\n'
+              '    @property\n    def $g(self):\n        return self.$c\n\n    @staticmethod\n    def $i($j, $k=2):\n'
+              '        return $j\n\n    class $l:\n        $m = 1\n\n$n = $a(1, 2)\n$n.$c = $n.$g\n',
+         vals='n', classes='a', calls=['$a(1, 2)', '$a.$i(1, $k=3)', '$n.$i(4)']),
+    dict(name='control_flow',
+         text='for $a, ($b, $c) in [(1, (2, 3))]:\n    $d = $a + $b + $c\nelse:\n    $d = 0\nwhile $d:\n    $d -= 1\n'
+              'with $C as $e, $C as ($f, $g):\n    pass\ntry:\n    $h = $v\nexcept (ValueError, TypeError) as $i:\n'
+              '    $h = $i\nexcept Exception as $j:\n    raise\nfinally:\n    del $h\n', vals='a d'),
+    dict(name='comprehension_lambda_walrus',
+         text='$a = lambda $b, $c=2, *$d, **$e: $b + $c\n$f = [$g * $g for $g in range(3) if $g]\n'
+              '$h = {$i: $j for $i, $j in zip($f, $f)}\n$k = [($l, $m) for $l in $f for $m in $f if $l if $m]\n'
+              'if ($n := $v):\n    print($n)\n', vals='f h k n', calls=['$a(1, $c=3)']),
+    dict(name='global_nonlocal',
+         text='$a = 0\ndef $b():\n    global $a\n    $a = 1\n    $c = 2\n    def $d():\n        nonlocal $c\n        $c = 3\n'
+              '        return $c\n    return $d\n', vals='a', calls=['$b()']),
+    dict(name='imports',
+         text='import os\nimport os.path as $a\nfrom sys import path as $b, argv\nfrom os import (sep,\n'
+              '                linesep as $c)\n$d = $a.join(sep, $c)\n', vals='b c d'),
+    dict(name='semicolons', text='$a = 1; $b = $a\n$c = $a if $b else $v\n$d = $c; print($d)\n', vals='a b c d'),
+    dict(name='strings_comments',
+         text='$a = \'not $b here\'  # comment $c = 1\n$d = """multi\n$e = 2\n"""  # $f\n# $g = $a\n'
+              '$h = f"{$a} and {$d:>{$v}} {$w!r}"\n$i = (\'$a\'\n      "$d")\n', vals='a d h'),
+    dict(name='async',
+         text='async def $a($b):\n    async with $b as $c:\n        pass\n    async for $d in $b:\n        await $d\n'
+              '    return [$e async for $e in $b]\n', calls=['$a($v)']),
+    dict(name='call_before_def', text='def $a($b):\n    return $c($b, 2, $e=3)\n',
+         late='def $c($d, $f=1, *$g, $e=None, **$h):\n    return $d\n', calls=['$c(1, $e=2)', '$a(1)']),
+    dict(name='forward_class', text='def $a($b):\n    $i = $c($b)\n    return $i.$d($b, 1)\n',
+         late='class $c:\n    def __init__(self, $e):\n        self.$e = $e\n    def $d(self, $f, $g=0, *$h):\n'
+              '        return $f\n', calls=['$c(1).$d(2, $g=3)', '$a(1)'], classes='c'),
+    dict(name='star_calls', text='$a = ($v,)\n$b = {\'k\': $w}\n$c = $C\nprint(*$a, **$b)\n$d = $C if $C else $C\n',
+         vals='a b c d'),
+    dict(name='annotated', text='$a: int = 1\n$b: "$K"\n$c: $K = $v\n', vals='a c'),
+    dict(name='multiline_def',
+         text='def $a(\n        $b,\n        $c=(1,\n            2),\n        *$d,\n        **$e\n):\n    return ($b,\n'
+              '            $c)\n', calls=['$a(1,\n   2,\n   $f=3)']),
+    dict(name='methods',
+         text='class $a:\n    def $b(self, $c):\n        return self.$d($c)\n    def $d(self, $e, *$f):\n        return $e\n'
+              '$g = $a()\n$h = $g.$b(1)\n', vals='g h', classes='a', calls=['$g.$b(1)', '$g.$d(1, 2)']),
+    dict(name='main_guard', text='if __name__ == \'__main__\':\n    $a = __file__\nelif $v:\n    $a = None\nelse:\n    $a = 0\n',
+         vals='a'),
+    dict(name='redefinition', text='$a = 1\n$a = $a + 1\ndef $a($b):\n    return $b\n$c = $a\nclass $a:\n    $b = $c\n',
+         vals='c'),
+    dict(name='odd_spacing', text='$a  =  (  $v  )\n$b=$a\n$c\t=\t$b\t+ $a\n$d = $a . real\n$e = $C . real . imag\n'
+                                  '$f = [ $a,$b ,$c ]\n', vals='a b c f'),
+    dict(name='soft_keywords', text='match = $v\ncase = match\n_ = case\ntype = _\n$a = type\n', vals='a'),
+    dict(name='nested_functions',
+         text='def $a($b):\n    def $c($d):\n        def $e($f=$b):\n            return $b + $d + $f\n        return $e\n'
+              '    $g = $c($b)\n    return $g()\n', calls=['$a(1)']),
+    dict(name='attr_targets', text='class $a:\n    $b = None\n$c = $a()\n$c.$b = $a()\n$c.$b.$b = $v\n$d = $c.$b.$b\n'
+                                   'del $c.$b.$b\n', vals='c d', classes='a'),
+]
+BROKEN_TAILS = ['$v.', '$a = $C[', 'def $a(', '$a = = $v', 'class :', '$a = ($v,', 'for $a in', 'print($v, $b=']
 
-def name_tokens(code):
+ID_POOLS = {
+    'ascii': ['alpha', 'beta', 'gamma_x', 'Delta', 'eps2', 'zeta_', '_eta', 'theta', 'iota_long_name', 'kap', 'lam_b',
+              'mu', 'nu9', 'xi'],
+    'latin': ['größe', 'naïve', 'überzug', 'café', 'señal', 'wert', 'ärger', 'œuvre', 'łódź', 'élan', 'ça', 'ýmir',
+              'ñandú', 'tâche'],
+    'cyrillic': ['переменная', 'значение', 'функция', 'класс', 'имя', 'счёт', 'ключ', 'данные', 'строка', 'число', 'икс',
+                 'игрек', 'объект', 'метод'],
+    'cjk': ['变量', '数值', '函数', '类别', '名字', '计数', '键', '数据', '字符串', '数字', '甲', '乙', '对象', '方法'],
+    'astral': ['\U00020000a', '\U00020001', 'b\U0002a6d6', '\U00020b9f_x', 'c\U00020000\U00020001', '\U0002a700q',
+               '\U00020002', 'd\U00020003', '\U00020004e', '\U00020005', 'f\U00020006', '\U00020007g', '\U00020008',
+               'h\U00020009'],
+}
+FLAVOURS = ['ascii', 'latin', 'cyrillic', 'cjk', 'astral', 'mixed']
+for _pool in ID_POOLS.values():
+    for _id in _pool:
+        if unicodedata.normalize('NFKC', _id) != _id or not _id.isidentifier():
+            raise RuntimeError('identifier pool entry %r is not a NFKC-stable identifier' % _id)
+
+
+class Ids:
+    def __init__(self, rng, flavour):
+        self.rng, self.flavour, self.used = rng, flavour, set(['match', 'case', 'type', '_', 'zz', 'k'])
+
+    def new(self):
+        for _ in range(1000):
+            pool = ID_POOLS[self.rng.choice(sorted(ID_POOLS)) if self.flavour == 'mixed' else self.flavour]
+            base = self.rng.choice(pool)
+            cand = base if base not in self.used else '%s%d' % (base, self.rng.randrange(1, 99))
+            if cand not in self.used and cand.isidentifier() and not keyword.iskeyword(cand):
+                self.used.add(cand)
+                return cand
+        raise RuntimeError('identifier pool exhausted')
+
+
+def _instantiate(text, ctx, mapping):
+    def sub(m):
+        ch = m.group(1)
+        if ch in 'vw':
+            return ctx['rng'].choice(ctx['vals']) if ctx['vals'] else '1'
+        if ch == 'K':
+            return ctx['rng'].choice(ctx['classes']) if ctx['classes'] else 'object'
+        if ch == 'C':
+            return ctx['rng'].choice(ctx['calls']) if ctx['calls'] else 'len([])'
+        if ch not in mapping:
+            mapping[ch] = ctx['ids'].new()
+        return mapping[ch]
+    return re.sub(r'\$([a-nvwKC])', sub, text)
+
+
+def generate_program(rng, flavour, n_blocks, header=None, broken=False):
+    """-> (blocks, late_blocks): lists of LF texts; every block starts at column 0 of a top level statement"""
+    ctx = dict(rng=rng, ids=Ids(rng, flavour), vals=[], classes=[], calls=[])
+    blocks, late = [], []
+    if header:
+        blocks.append(header['text'])
+        ctx['vals'] += header['vals']
+        ctx['classes'] += header['classes']
+        ctx['calls'] += header['calls']
+    for t in rng.sample(TEMPLATES, n_blocks):
+        mapping = {}
+        blocks.append(_instantiate(t['text'], ctx, mapping))
+        if 'late' in t:
+            late.append(_instantiate(t['late'], ctx, mapping))
+        ctx['vals'] += [mapping[c] for c in t.get('vals', '').split()]
+        ctx['classes'] += [mapping[c] for c in t.get('classes', '').split()]
+        new_calls = [_instantiate(c, ctx, mapping) for c in t.get('calls', [])]
+        ctx['calls'] += [c for c in new_calls if '\n' not in c]
+        if new_calls:
+            v = ctx['ids'].new()
+            blocks.append('%s = %s\n' % (v, rng.choice(new_calls)))
+            ctx['vals'].append(v)
+    blocks += late
+    if broken:
+        blocks.append(_instantiate(rng.choice(BROKEN_TAILS), ctx, {}) + '\n')
+    return blocks, ctx
+
+
+def apply_layout(blocks, rng, layout):
+    """join the blocks into one text under the layout: indentation unit, form feeds / blank lines between the top
+    level blocks, line ends, final newline"""
+    parts = []
+    for i, b in enumerate(blocks):
+        if i:
+            r = rng.random()
+            if layout['formfeed'] and r < 0.35:
+                parts.append('\x0c\n')
+            elif layout['formfeed'] and r < 0.55:
+                b = '\x0c' + b
+            elif r < 0.75:
+                parts.append(rng.choice(['\n', '\n\n', '    \n', '\t\n', '# comment %s = 1\n' % rng.choice(['alpha', 'x'])]))
+        parts.append(b)
+    text = ''.join(parts)
+    unit = layout['indent']
+    lines = text.split('\n')
     out = []
+    for ln in lines:
+        m = re.match(r'(?:    )+', ln)
+        if m and unit != '    ':
+            ln = unit * (len(m.group(0)) // 4) + ln[len(m.group(0)):]
+        out.append(ln)
+    text = '\n'.join(out)
+    if not layout['final_newline']:
+        text = text.rstrip('\n')
+    nl = layout['newline']
+    if nl == 'mixed':
+        text = re.sub('\n', lambda m: rng.choice(['\n', '\r\n', '\r']), text)
+    elif nl != '\n':
+        text = text.replace('\n', nl)
+    return text
+
+
+def random_layout(rng):
+    return dict(indent=rng.choice(['    ', '\t', '  ', '        ', '    ']),
+                newline=rng.choice(['\n', '\n', '\r\n', '\r', 'mixed']),
+                final_newline=rng.random() < 0.5,
+                formfeed=rng.random() < 0.5)
+
+
+# ----------------------------------------------------------------------------------------------------------------
+# oracles
+_LINE_RE = re.compile(r'[^\r\n]*(?:\r\n|\r|\n)|[^\r\n]+\Z')
+
+
+def physical_lines(text):
+    """Python's physical lines (terminated by LF, CR LF or CR; nothing else ends a line), line ends kept"""
+    lines = _LINE_RE.findall(text)
+    if ''.join(lines) != text:
+        raise RuntimeError('line splitter lost text')
+    return lines
+
+
+def to_lf(text):
+    return text.replace('\r\n', '\n').replace('\r', '\n')
+
+
+def tokens_of(text):
+    """(all tokens, complete?) of the stdlib tokenizer on the LF form of the text.  An error at EOF (open bracket,
+    broken tail) keeps the tokens seen so far; any other tokenizer error is a harness problem."""
+    toks = []
     try:
-        for tok in tokenize.generate_tokens(io.StringIO(code).readline):
-            if tok.type == tokenize.NAME and not keyword.iskeyword(tok.string) or \
-                    tok.type == tokenize.NAME and tok.string in ('print',):
-                out.append((tok.start[0], tok.start[1], tok.string))
-    except tokenize.TokenError:
-        pass
-    return out
+        for tok in tokenize.generate_tokens(io.StringIO(to_lf(text)).readline):
+            toks.append(tok)
+    except tokenize.TokenError as e:
+        if 'EOF' not in str(e):
+            raise RuntimeError('tokenizer oracle failed: %r on %r' % (e, text[-80:]))
+        return toks, False
+    except (SyntaxError, IndentationError) as e:
+        raise RuntimeError('tokenizer oracle failed: %r on %r' % (e, text))
+    return toks, True
 
 
-def binding_oracle(code):
-    """{(line, col): True/False} for tokens whose binding status ast decides unambiguously"""
-    res = {}
-    tree = ast.parse(code)
+def identifier_tokens(toks, lines):
+    """[(line, col, string)] of identifier tokens, and the set of positions of f-string conversion characters (the
+    tokenizer calls `r` in f'{x!r}' a NAME, but it is no identifier)"""
+    out, conversions = [], set()
+    depth = 0
+    for i, tok in enumerate(toks):
+        if tok.type == getattr(tokenize, 'FSTRING_START', -1):
+            depth += 1
+        elif tok.type == getattr(tokenize, 'FSTRING_END', -1):
+            depth -= 1
+        if tok.type == tokenize.NAME and not keyword.iskeyword(tok.string):
+            if depth and i and toks[i - 1].type == tokenize.OP and toks[i - 1].string == '!' \
+                    and toks[i - 1].end == tok.start:
+                conversions.add((tok.start[0], tok.start[1]))
+                continue
+            if lines[tok.start[0] - 1][tok.start[1]:tok.start[1] + len(tok.string)] != tok.string:
+                raise RuntimeError('tokenizer oracle and line splitter disagree at %r' % (tok,))
+            out.append((tok.start[0], tok.start[1], tok.string))
+    return out, conversions
+
+
+def binding_oracle(text, toks, lines):
+    """{(line, col): True/False} for the identifier tokens whose binding status the ast decides: Store contexts,
+    parameters, def/class names, import aliases, `as` targets bind; Load contexts, keyword argument names, dotted import
+    parts do not.  del targets, global/nonlocal lists and bare annotations stay undecided."""
+    lf = to_lf(text)
+    tree = ast.parse(lf)
+    lf_lines = lf.split('\n')
+    res, undecided = {}, set()
+
+    def ccol(lineno, byteoff):
+        return len(lf_lines[lineno - 1].encode('utf-8')[:byteoff].decode('utf-8'))
+
+    sig = [t for t in toks if t.type not in (tokenize.NL, tokenize.COMMENT, tokenize.NEWLINE, tokenize.INDENT,
+                                             tokenize.DEDENT)]
+    index = {t.start: i for i, t in enumerate(sig)}
+    for n in ast.walk(tree):
+        if isinstance(n, ast.AnnAssign) and n.value is None:
+            for m in ast.walk(n.target):
+                if isinstance(m, (ast.Name, ast.Attribute)):
+                    undecided.add((m.end_lineno, ccol(m.end_lineno, m.end_col_offset)))
     for n in ast.walk(tree):
         if isinstance(n, ast.Name):
-            res[(n.lineno, n.col_offset)] = isinstance(n.ctx, (ast.Store, ast.Del)) and not isinstance(n.ctx, ast.Del) \
-                or isinstance(n.ctx, ast.Store)
+            key = (n.lineno, ccol(n.lineno, n.col_offset))
             if isinstance(n.ctx, ast.Del):
-                res.pop((n.lineno, n.col_offset), None)     # `del x`: left undecided here
+                undecided.add(key)
+            else:
+                res[key] = isinstance(n.ctx, ast.Store)
         elif isinstance(n, ast.arg):
-            res[(n.lineno, n.col_offset)] = True
-    return res
+            res[(n.lineno, ccol(n.lineno, n.col_offset))] = True
+        elif isinstance(n, ast.keyword) and n.arg is not None:
+            res[(n.lineno, ccol(n.lineno, n.col_offset))] = False
+        elif isinstance(n, ast.Attribute):
+            end = (n.end_lineno, ccol(n.end_lineno, n.end_col_offset))
+            key = (end[0], end[1] - len(n.attr))
+            if key in index and sig[index[key]].string == n.attr:
+                if isinstance(n.ctx, ast.Del):
+                    undecided.add(key)
+                else:
+                    res[key] = isinstance(n.ctx, ast.Store)
+        elif isinstance(n, (ast.FunctionDef, ast.AsyncFunctionDef, ast.ClassDef)):
+            i = index[(n.lineno, ccol(n.lineno, n.col_offset))]
+            while sig[i].string not in ('def', 'class'):
+                i += 1
+            if sig[i + 1].string != n.name:
+                raise RuntimeError('binding oracle lost the name of %s' % n.name)
+            res[sig[i + 1].start] = True
+        elif isinstance(n, (ast.Import, ast.ImportFrom)):
+            for al in n.names:
+                if al.name == '*':
+                    continue
+                i = index[(al.lineno, ccol(al.lineno, al.col_offset))]
+                parts = al.name.split('.')
+                for k, part in enumerate(parts):
+                    if sig[i + 2 * k].string != part:
+                        raise RuntimeError('binding oracle lost import part %s' % part)
+                    res[sig[i + 2 * k].start] = (al.asname is None and k == 0 and
+                                                 (isinstance(n, ast.Import) or len(parts) == 1))
+                if al.asname is not None:
+                    j = i + 2 * len(parts)
+                    if sig[j - 1].string != 'as' or sig[j].string != al.asname:
+                        raise RuntimeError('binding oracle lost import alias %s' % al.asname)
+                    res[sig[j].start] = True
+            if isinstance(n, ast.ImportFrom):
+                i = index[(n.lineno, ccol(n.lineno, n.col_offset))] + 1
+                while sig[i].string != 'import':
+                    if sig[i].type == tokenize.NAME:
+                        res[sig[i].start] = False
+                    i += 1
+        elif isinstance(n, ast.ExceptHandler) and n.name is not None:
+            i = index[(n.lineno, ccol(n.lineno, n.col_offset))]
+            while sig[i].string != ':':
+                i += 1
+            if sig[i - 1].string != n.name or sig[i - 2].string != 'as':
+                raise RuntimeError('binding oracle lost except target %s' % n.name)
+            res[sig[i - 1].start] = True
+    for i, t in enumerate(sig):
+        if t.type == tokenize.NAME and t.string in ('global', 'nonlocal'):
+            j = i + 1
+            while j < len(sig) and sig[j].start[0] == t.start[0] and sig[j].string not in (';',):
+                undecided.add(sig[j].start)
+                j += 1
+    for key in undecided:
+        res.pop(key, None)
+    # lines of the top level statements that start with a form feed (parso counts the form feed as indentation)
+    ff_lines = set()
+    for node in tree.body:
+        first = min([node.lineno] + [d.lineno for d in getattr(node, 'decorator_list', [])])
+        if lf_lines[first - 1].startswith('\x0c'):
+            ff_lines.update(range(first, node.end_lineno + 1))
+    return res, ff_lines
 
 
-def normalise_newlines_for_ast(code):
-    return code
+def decode_source_file(path):
+    """text of a python file as Python itself reads it (PEP 263 cookie / BOM)"""
+    with open(path, 'rb') as f:
+        raw = f.read()
+    # Python reads source lines with universal newlines; io.BytesIO.readline would only split at LF
+    byte_lines = iter(re.findall(rb'[^\r\n]*(?:\r\n|\r|\n)|[^\r\n]+\Z', raw))
+    enc, _ = tokenize.detect_encoding(lambda: next(byte_lines, b''))
+    return raw.decode(enc)
+
+
+# ----------------------------------------------------------------------------------------------------------------
+STALE_SIG_LABEL = ('get_signatures returns a Signature of the previous buffer of the same path '
+                   '(cursor on a later line than the opening bracket)')
+FF_LABEL = 'is_definition() is wrong in a statement that starts with a form feed'
+
+
+class Collector:
+    def __init__(self, ident):
+        self.ident = ident
+        self.violations = []
+        self.counts = {}
+        self.kinds = {}
+        self.evaluations = 0
+        self.query_errors = 0
+        self.checked_results = 0
+        self.foreign_results = 0
+
+    def add(self, label, kind, inp, observed):
+        self.counts[label] = self.counts.get(label, 0) + 1
+        k = (label, kind)
+        self.kinds[k] = self.kinds.get(k, 0) + 1
+        if self.kinds[k] <= 3:
+            self.violations.append({'label': label, 'input': repr((self.ident,) + tuple(inp)), 'observed': observed,
+                                    '_kind': kind})
+
+
+class _Relabel:
+    """a collector view that files the position violations of one result under one other (known) label"""
+
+    def __init__(self, col, label):
+        self.__dict__.update(_col=col, _label=label)
+
+    def add(self, label, kind, inp, observed):
+        self._col.add(label if label == 'attribute raised' else self._label, kind, inp, label + ': ' + observed)
+
+    def __getattr__(self, name):
+        return getattr(self._col, name)
+
+    def __setattr__(self, name, value):
+        setattr(self._col, name, value)
+
+
+class Step:
+    """one text handed to jedi in one way; knows how to check any returned object against the text it points into"""
+
+    def __init__(self, jedi, col, text, path, project, how, file_texts, snippet, note=''):
+        self.jedi, self.col, self.text, self.path, self.how, self.note = jedi, col, text, path, how, note
+        self.lines = physical_lines(text)
+        self.file_texts = file_texts      # {path: text} cache of decoded disk files
+        self.snippet = snippet
+        kw = {}
+        if project is not None:
+            kw['project'] = project
+        if how == 'nopath':
+            self.script = jedi.Script(text, **kw)
+        elif how == 'interpreter':
+            self.script = jedi.Interpreter(text, [{}], **kw)
+        elif how == 'path_only':
+            self.script = jedi.Script(path=path, **kw)
+        elif how.startswith('bytes:'):
+            self.script = jedi.Script(text.encode(how[6:]) if how[6:] != 'utf-8-sig' else
+                                      b'\xef\xbb\xbf' + text.encode('utf-8'), path=path, **kw)
+        else:
+            self.script = jedi.Script(text, path=path, **kw)
+        self.own_module_name = None
+        self.asked = []       # (kind, line, column, text in front of the position)
+        self.ff_lines = set()
+
+    def desc(self, *more):
+        return (self.how + self.note,) + more
+
+    def target_lines(self, r):
+        """physical lines of the text the object claims to point into, or None when it points nowhere we can read"""
+        mp = r.module_path
+        if mp is None:
+            if self.path is None or self.how in ('nopath', 'interpreter'):
+                if r.in_builtin_module():
+                    return None
+                if self.own_module_name is None:
+                    self.own_module_name = self.script.get_context(1, 0).module_name
+                if r.module_name == self.own_module_name:
+                    return self.lines
+            return None
+        mp = str(mp)
+        if self.how not in ('nopath', 'interpreter') and self.path is not None \
+                and os.path.abspath(mp) == os.path.abspath(self.path):
+            return self.lines
+        if not mp.endswith('.py') or not os.path.isfile(mp):
+            return None
+        if mp not in self.file_texts:
+            self.file_texts[mp] = physical_lines(decode_source_file(mp))
+        self.col.foreign_results += 1
+        return self.file_texts[mp]
+
+    def check(self, r, query, pos, binding=None, relabel=None):
+        col = _Relabel(self.col, relabel) if relabel else self.col
+        col.evaluations += 1
+        kind = query
+        inp = self.desc(query, pos, self.snippet(pos))
+        try:
+            line, column, name = r.line, r.column, r.name
+            if line is None:
+                return
+            lines = self.target_lines(r)
+            if lines is None:
+                return
+            where = 'buffer' if lines is self.lines else os.path.basename(str(r.module_path))
+            if not (1 <= line <= len(lines)) or column is None or column < 0:
+                if r.type == 'module' and (line, column) == (1, 0):
+                    return       # an empty module
+                col.add('text at (line, column) is not the name', kind, inp,
+                        repr((name, where, line, column, 'no such line (%d lines)' % len(lines))))
+                return
+            line_text = lines[line - 1]
+            col.checked_results += 1
+            if line_text[column:column + len(name)] != name:
+                if r.type == 'module' and (line, column) == (1, 0):
+                    return       # a module as a whole, not one of its identifiers
+                if name.isidentifier():
+                    col.add('text at (line, column) is not the name', kind, inp,
+                            repr((name, where, line, column, line_text)))
+            glc = r.get_line_code()
+            b, a = (line * 7 + column) % 3, (line + column) % 3
+            want = ''.join(lines[max(line - 1 - b, 0):line + a])
+            if glc == '\ufeff' + line_text and line == 1:
+                # the file / byte buffer starts with a UTF-8 byte order mark; Python does not count it to the line
+                col.add('get_line_code() keeps the byte order mark in front of the first line', kind, inp,
+                        repr((name, where, line, glc, line_text)))
+            elif glc != line_text:
+                col.add('get_line_code() is not the line of the name', kind, inp,
+                        repr((name, where, line, glc, line_text)))
+            else:
+                got = r.get_line_code(before=b, after=a)
+                if got == '\ufeff' + want and line - 1 - b <= 0:
+                    col.add('get_line_code() keeps the byte order mark in front of the first line', kind,
+                            inp + ('before=%d after=%d' % (b, a),), repr((name, where, line, got, want)))
+                elif got != want:
+                    col.add('get_line_code() is not the line of the name', kind, inp + ('before=%d after=%d' % (b, a),),
+                            repr((name, where, line, got, want)))
+            try:
+                st, en = r.get_definition_start_position(), r.get_definition_end_position()
+            except Exception:
+                # the end position asks for the inferred type of the name; a failing inference is C01's business
+                col.query_errors += 1
+                st = en = None
+            if st is not None and en is not None:
+                if not (st <= (line, column) and (line, column + len(name) if name.isidentifier() else column) <= en):
+                    col.add('definition range does not enclose the name', kind, inp,
+                            repr((name, where, line, column, st, en)))
+                elif not (_in_text(st, lines) and _in_text(en, lines)):
+                    col.add('definition range does not enclose the name', kind, inp,
+                            repr((name, where, 'range outside the text', st, en)))
+            if binding is not None and lines is self.lines and (line, column) in binding \
+                    and hasattr(r, 'is_definition') and name.isidentifier() \
+                    and line_text[column:column + len(name)] == name:
+                if r.is_definition() != binding[(line, column)]:
+                    col.add(FF_LABEL if line in self.ff_lines else 'is_definition() disagrees with what binds', kind, inp,
+                            'name %r at %r: is_definition=%r, binds=%r; line %r'
+                            % (name, (line, column), r.is_definition(), binding[(line, column)], line_text))
+        except RecursionError:
+            col.query_errors += 1
+        except Exception:
+            col.add('attribute raised', kind, inp, traceback.format_exc(limit=3))
+
+
+def _in_text(pos, lines):
+    """a (line, column) inside the text; (last line + 1, 0) is the end of a text that ends with a line break"""
+    if 1 <= pos[0] <= len(lines):
+        return 0 <= pos[1] <= len(lines[pos[0] - 1])
+    return pos == (len(lines) + 1, 0) and (not lines or lines[-1][-1:] in ('\n', '\r'))
+
+
+def _snippet_fn(lines):
+    def snippet(pos):
+        if isinstance(pos, tuple) and len(pos) >= 2 and isinstance(pos[0], int) and 1 <= pos[0] <= len(lines):
+            return lines[pos[0] - 1]
+        return ''
+    return snippet
+
+
+def check_text(jedi, col, rng, text, path, project, how, file_texts, budget, broken=False, note='', replay=()):
+    """all checks of one text handed to jedi in one way"""
+    lines = physical_lines(text)
+    step = Step(jedi, col, text, path, project, how, file_texts, _snippet_fn(lines), note)
+    s = step.script
+    toks, complete = tokens_of(text)
+    idents, conversions = identifier_tokens(toks, lines)
+    binding = None
+    if not broken:
+        if not complete:
+            raise RuntimeError('generated program does not tokenize: %r' % text)
+        binding, step.ff_lines = binding_oracle(text, toks, lines)
+    head = text[:60]
+
+    # ---- get_names: each identifier token exactly once, is_definition exactly for what binds
+    col.evaluations += 1
+    try:
+        names = s.get_names(all_scopes=True, definitions=True, references=True)
+    except RecursionError:
+        names = None
+        col.query_errors += 1
+    except Exception:
+        col.add('get_names raised', 'get_names', step.desc(head), traceback.format_exc(limit=3))
+        names = None
+    if names is not None:
+        got = sorted((n.line, n.column, n.name) for n in names)
+        want = sorted(idents)
+        conv_extra = [g for g in got if (g[0], g[1]) in conversions]
+        got = [g for g in got if (g[0], g[1]) not in conversions]
+        if conv_extra:
+            col.add('get_names reports an f-string conversion character as an identifier', 'get_names',
+                    step.desc(lines[conv_extra[0][0] - 1]), repr(conv_extra[:3]))
+        if got != want and (complete or not broken):
+            dup = sorted(set(g for g in got if got.count(g) > 1))
+            col.add('get_names does not report each identifier token exactly once', 'get_names',
+                    step.desc(head), 'extra %r missing %r duplicated %r'
+                    % (sorted(set(got) - set(want))[:5], sorted(set(want) - set(got))[:5], dup[:5]))
+        elif got != want:
+            # broken tail: the tokenizer oracle stopped at the error; everything it saw must be there once
+            miss = [w for w in want if got.count(w) != 1]
+            if miss:
+                col.add('get_names does not report each identifier token exactly once', 'get_names',
+                        step.desc(head, 'broken tail'), 'not exactly once: %r' % miss[:5])
+        for n in names:
+            step.check(n, 'get_names', (n.line, n.column), binding)
+        if binding is not None:
+            for flags in (dict(definitions=True, references=False), dict(definitions=False, references=True)):
+                col.evaluations += 1
+                try:
+                    sub = s.get_names(all_scopes=True, **flags)
+                except Exception:
+                    col.add('get_names raised', 'get_names', step.desc(head, sorted(flags.items())),
+                            traceback.format_exc(limit=3))
+                    continue
+                subpos = set((n.line, n.column) for n in sub)
+                wantdef = flags['definitions']
+                wrong_in = sorted(p for p in subpos if p in binding and binding[p] != wantdef)
+                wrong_out = sorted(p for p, v in binding.items() if v == wantdef and p not in subpos)
+                ff = [p for p in wrong_in + wrong_out if p[0] in step.ff_lines]
+                wrong_in = [p for p in wrong_in if p not in ff]
+                wrong_out = [p for p in wrong_out if p not in ff]
+                if ff:
+                    col.add(FF_LABEL, 'get_names', step.desc(head, sorted(flags.items())),
+                            'get_names(%s): wrongly included / left out %r; line %r'
+                            % (sorted(flags.items()), ff[:4], lines[ff[0][0] - 1]))
+                if wrong_in or wrong_out:
+                    col.add('is_definition() disagrees with what binds', 'get_names',
+                            step.desc(head, sorted(flags.items())),
+                            'get_names(%s): wrongly included %r, wrongly left out %r; lines %r'
+                            % (sorted(flags.items()), wrong_in[:4], wrong_out[:4],
+                               [lines[p[0] - 1] for p in (wrong_in + wrong_out)[:2]]))
+        col.evaluations += 1
+        top = None
+        try:
+            top = s.get_names()
+        except RecursionError:
+            col.query_errors += 1
+        except Exception:
+            col.add('get_names raised', 'get_names', step.desc(head, 'all_scopes=False'), traceback.format_exc(limit=3))
+        if top is not None:
+            allpos = set((n.line, n.column) for n in names)
+            toppos = [(n.line, n.column) for n in top]
+            if len(set(toppos)) != len(toppos) or not set(toppos) <= allpos:
+                col.add('get_names does not report each identifier token exactly once', 'get_names',
+                        step.desc(head, 'all_scopes=False'), 'duplicates or positions that are no identifier: %r'
+                        % sorted(set(p for p in toppos if toppos.count(p) > 1 or p not in allpos))[:5])
+            for n in top:
+                step.check(n, 'get_names()', (n.line, n.column), binding)
+            for n in rng.sample(top, min(len(top), budget['sub'])):
+                col.evaluations += 1
+                try:
+                    sub = n.defined_names()
+                except Exception:       # includes RecursionError; totality is C01's business
+                    col.query_errors += 1
+                    continue
+                for m in sub:
+                    step.check(m, 'defined_names', (n.line, n.column), binding)
+            for n in rng.sample(names, min(len(names), budget['sub'])):
+                for q, fn in (('parent', lambda: [n.parent()]), ('Name.goto', n.goto), ('Name.infer', n.infer)):
+                    col.evaluations += 1
+                    try:
+                        res = [r for r in fn() if r is not None]
+                    except Exception:       # includes RecursionError; totality is C01's business
+                        col.query_errors += 1
+                        continue
+                    for r in res:
+                        step.check(r, q, (n.line, n.column), binding)
+
+    def run_query(q, pos, fn):
+        col.evaluations += 1
+        try:
+            res = list(fn())
+        except Exception:                  # includes RecursionError; totality is C01's business
+            col.query_errors += 1
+            return []
+        for r in res:
+            step.check(r, q, pos, binding)
+        return res
+
+    def signatures(pos):
+        col.evaluations += 1
+        try:
+            sigs = s.get_signatures(*pos)
+        except Exception:
+            col.query_errors += 1
+            return
+        for sg in sigs:
+            bs = sg.bracket_start
+            # known: the 3 s signature cache ignores the text when the cursor is on a later line than the bracket
+            relabel = STALE_SIG_LABEL if note and bs[0] < pos[0] else None
+            step.check(sg, 'get_signatures', pos, binding, relabel)
+            if not (1 <= bs[0] <= len(lines)) or lines[bs[0] - 1][bs[1]:bs[1] + 1] != '(':
+                col.add('signature bracket_start is not at an opening bracket', 'get_signatures',
+                        step.desc('get_signatures', pos, lines[pos[0] - 1]), repr(bs))
+            col.evaluations += 1
+            try:
+                params = sg.params
+            except Exception:           # inference of the parameters failed; totality is C01's business
+                col.query_errors += 1
+                continue
+            for p in params:
+                step.check(p, 'get_signatures.params', pos, binding, relabel)
+
+    def context(line, c):
+        x = s.get_context(line, c)
+        p = x.parent()
+        return [x] + ([p] if p is not None else [])
+
+    asks = {
+        'goto': lambda l, c: run_query('goto', (l, c), lambda: s.goto(l, c)),
+        'goto(follow_imports)': lambda l, c: run_query('goto(follow_imports)', (l, c), lambda: s.goto(
+            l, c, follow_imports=True, follow_builtin_imports=True)),
+        'infer': lambda l, c: run_query('infer', (l, c), lambda: s.infer(l, c)),
+        'get_references': lambda l, c: run_query('get_references', (l, c), lambda: s.get_references(l, c)),
+        'get_references(file)': lambda l, c: run_query('get_references(file)', (l, c),
+                                                       lambda: s.get_references(l, c, scope='file')),
+        'help': lambda l, c: run_query('help', (l, c), lambda: s.help(l, c)),
+        'get_context': lambda l, c: run_query('get_context', (l, c), lambda: context(l, c)),
+        'complete': lambda l, c: run_query('complete', (l, c), lambda: s.complete(l, c)),
+        'complete(fuzzy)': lambda l, c: run_query('complete(fuzzy)', (l, c), lambda: s.complete(l, c, fuzzy=True)),
+        'get_signatures': lambda l, c: signatures((l, c)),
+    }
+
+    def ask(kind, line, c):
+        step.asked.append((kind, line, c, ''.join(lines[max(0, line - 3):line - 1]) + lines[line - 1][:c]))
+        asks[kind](line, c)
+
+    # ---- a later version of the same path: first of all ask again, at once, what was asked of the previous version
+    # at the positions whose preceding text did not change (the rest of the text did)
+    again = [(k, l, c) for (k, l, c, before) in replay
+             if l <= len(lines) and ''.join(lines[max(0, l - 3):l - 1]) + lines[l - 1][:c] == before]
+    again.sort(key=lambda a: a[0] != 'get_signatures')
+    for (k, l, c) in again[:budget['replay']]:
+        ask(k, l, c)
+
+    # ---- positional queries on identifier tokens
+    for (line, c0, string) in rng.sample(idents, min(len(idents), budget['tokens'])):
+        c = c0 + rng.randrange(len(string))
+        for kind in ('goto', 'goto(follow_imports)', 'infer', 'get_references', 'get_references(file)', 'help'):
+            ask(kind, line, c)
+    for (line, c0, string) in rng.sample(idents, min(len(idents), budget['sub'])):
+        ask('get_context', line, c0)
+
+    # ---- completion at positions inside every kind of identifier-like text (code, docstrings, comments, strings)
+    words = []
+    for li, ltext in enumerate(lines, 1):
+        for m in re.finditer(r'[^\W\d]\w+', ltext):
+            words.append((li, m.start(), m.end()))
+        for m in re.finditer(r'\.(?=\s|\Z)', ltext):
+            words.append((li, m.end(), m.end()))
+    for (li, a, b) in rng.sample(words, min(len(words), budget['complete'])):
+        c = b if a == b else rng.randrange(a + 1, b + 1)
+        ask('complete(fuzzy)' if rng.random() < 0.25 else 'complete', li, c)
+
+    # ---- search
+    uniq = sorted(set(t[2] for t in idents))
+    for string in rng.sample(uniq, min(len(uniq), budget['search'])):
+        run_query('search', string, lambda: s.search(string, all_scopes=True))
+        run_query('complete_search', string[:2], lambda: s.complete_search(string[:max(1, len(string) // 2)], all_scopes=True))
+
+    # ---- signatures at the opening bracket / commas of calls (last, so that a following version asks again at once)
+    calls = []
+    for i, t in enumerate(toks):
+        if t.type == tokenize.OP and t.string in ('(', ',') and i and t.start[0] <= len(lines):
+            calls.append((t.start[0], t.start[1] + 1))
+    for pos in (calls if len(calls) <= budget['signatures'] else rng.sample(calls, budget['signatures'])):
+        ask('get_signatures', pos[0], pos[1])
+    return step
+
+
+# ----------------------------------------------------------------------------------------------------------------
+# project on disk
+ENCODINGS = ['utf-8'] * 6 + ['utf-8-sig'] + ['latin-1', 'gbk', 'cp1251', 'shift_jis'] * 2
+
+
+def write_source(path, text, encoding, rng):
+    """write text in the encoding (with a PEP 263 cookie when it is not utf-8); returns the text as Python reads it"""
+    if encoding not in ('utf-8', 'utf-8-sig'):
+        nl = re.search(r'\r\n|\r|\n', text)
+        cookie = rng.choice(['# -*- coding: %s -*-', '# coding=%s', '# vim: set fileencoding=%s :']) % encoding
+        text = cookie + (nl.group(0) if nl else '\n') + text
+        try:
+            raw = text.encode(encoding)
+        except UnicodeEncodeError:
+            raise RuntimeError('harness: text not encodable in %s' % encoding)
+    elif encoding == 'utf-8-sig':
+        raw = b'\xef\xbb\xbf' + text.encode('utf-8')
+    else:
+        raw = text.encode('utf-8')
+    os.makedirs(os.path.dirname(path), exist_ok=True)
+    with open(path, 'wb') as f:
+        f.write(raw)
+    back = decode_source_file(path)
+    if back != text:
+        raise RuntimeError('harness: file does not read back (%s)' % encoding)
+    return text
+
+
+def pick_encoding(rng, text):
+    encs = []
+    for e in ENCODINGS:
+        try:
+            if e in ('utf-8', 'utf-8-sig') or to_lf(text).encode(e).decode(e) == to_lf(text):
+                encs.append(e)
+        except (UnicodeEncodeError, UnicodeDecodeError):
+            pass
+    return rng.choice(encs)
+
+
+LEGACY_PREFIX = {'gbk': "标记 = '中文字符串'; ", 'shift_jis': "印 = '日本語の文字列'; ", 'cp1251': "метка = 'строка текста'; ",
+                 'latin-1': "marque = 'chaîne accentuée éèà'; ", 'utf-8': "étiquette = 'text – with — dashes'; ",
+                 'utf-8-sig': "étiquette = 'ünï'; "}
+
+
+def build_project(rng, root, flavour):
+    """helper module + package + a loose file nobody imports.  -> header for the main program"""
+    ids = Ids(rng, flavour if flavour != 'astral' else 'ascii')
+    hf, hc, hv, hm, sf, sv, pv = (ids.new() for _ in range(7))
+    modname = rng.choice(['helper_mod', 'hilfs_modul', 'util2'])
+    pkgname = rng.choice(['pkg', 'paket_x'])
+    lay = random_layout(rng)
+    helper_blocks = [
+        'def %s(%s, *%s, **%s):\n    """Doc.\n\n    >>> %s(1)\n    """\n    return %s\n' % (hf, 'p1', 'rest', 'kw', hf, 'p1'),
+        'class %s:\n    %s = 1\n    def %s(self, q_arg, r_arg=2):\n        self.%s = q_arg\n        return self\n'
+        % (hc, hv, hm, hv),
+        '%s = \\\n    %s(1)\n' % (hv, hf),
+    ]
+    extra, _ = generate_program(rng, flavour if flavour != 'astral' else 'latin', 2)
+    helper_text = apply_layout(helper_blocks + extra, rng, lay)
+    enc = pick_encoding(rng, helper_text)
+    write_source(os.path.join(root, modname + '.py'), helper_text, enc, rng)
+    lay2 = random_layout(rng)
+    init_text = apply_layout(['from .sub import %s\n' % sf, '%s = %s\n' % (pv, sf)], rng, lay2)
+    write_source(os.path.join(root, pkgname, '__init__.py'), init_text, 'utf-8', rng)
+    sub_blocks = ['from %s import %s\n' % (modname, hc),
+                  'def %s(first_arg, second_arg=None, *more_args):\n    return %s()\n' % (sf, hc),
+                  '%s = %s(1)\n' % (sv, sf)]
+    sub_text = apply_layout(sub_blocks, rng, lay2)
+    write_source(os.path.join(root, pkgname, 'sub.py'), sub_text, pick_encoding(rng, sub_text), rng)
+    # a file that is found by the text search only; non-ASCII text in front of the names on the same line
+    lenc = rng.choice(['gbk', 'shift_jis', 'cp1251', 'latin-1', 'utf-8', 'utf-8-sig'])
+    pre = LEGACY_PREFIX[lenc]
+    loose = ['from %s import %s, %s\n' % (modname, hf, hc), '%sres_a = %s(1)\n' % (pre, hf),
+             '%sres_b = %s().%s(2)\n' % (pre, hc, hm), 'if res_a:\n    %sres_c = %s.%s\n' % (pre, hc, hv)]
+    can = True
+    try:
+        ''.join(loose).encode(lenc if lenc != 'utf-8-sig' else 'utf-8')
+    except UnicodeEncodeError:
+        can = False
+    loose_text = apply_layout(loose, rng, dict(random_layout(rng), formfeed=False))
+    write_source(os.path.join(root, 'loose_%s.py' % rng.choice(['a', 'b'])), loose_text,
+                 lenc if can else 'utf-8', rng)
+    header_text = rng.choice([
+        'from %s import %s, %s, %s\nimport %s.sub as sub_alias\nfrom %s import %s\n'
+        % (modname, hf, hc, hv, pkgname, pkgname, pv),
+        'from %s import (%s,\n    %s, %s)\nfrom %s.sub import %s as sub_alias, %s\nfrom %s import %s\n'
+        % (modname, hf, hc, hv, pkgname, sf, sv, pkgname, pv),
+    ])
+    calls = ['%s(1, 2)' % hf, '%s().%s(3)' % (hc, hm), '%s(1, zz=2)' % pv]
+    if 'sub as sub_alias' in header_text:
+        calls.append('sub_alias.%s(1, 2)' % sf)
+        uses = 'sub_alias.%s' % sv
+    else:
+        calls.append('sub_alias(1, 2)')
+        uses = sv
+    header_text += 'proj_val = %s\nproj_obj = %s()\nproj_res = proj_obj.%s(proj_val).%s\n' % (uses, hc, hm, hv)
+    return dict(text=header_text, vals=[hv, 'proj_val', 'proj_res'], classes=[hc], calls=calls)
+
+
+def edit_text(rng, blocks, layout, layout_seed):
+    """a later version of the same program: lines inserted between top level blocks (same layout decisions)"""
+    new = list(blocks)
+    for _ in range(rng.randrange(1, 4)):
+        i = rng.randrange(1, len(new) + 1) if len(new) > 1 else 1
+        new.insert(i, rng.choice(['\n\n', '# inserted comment\n# second line\n', 'inserted_value = 0\n',
+                                  '\n# x\n\n\n', 'def inserted_function(p):\n    return p\n']))
+    if len(new) > 3 and rng.random() < 0.3:
+        del new[rng.randrange(1, len(new) - 1)]
+    return apply_layout(new, random.Random(layout_seed), layout)
+
+
+# ----------------------------------------------------------------------------------------------------------------
+BUDGETS = {
+    'quick': dict(tokens=14, complete=22, signatures=16, search=3, sub=4, replay=60, scenarios=84, corpus_tokens=8),
+    'thorough': dict(tokens=60, complete=80, signatures=60, search=10, sub=12, replay=300, scenarios=360, corpus_tokens=40),
+}
+
+
+def run_scenario(args):
+    """worker: one generated program (+ project, + edit sequence) -> collector data"""
+    repo, seed, tier, index, tmp = args
+    import jedi
+    rng = random.Random('%s/%s/%d' % (seed, tier, index))
+    budget = BUDGETS[tier]
+    root = os.path.join(tmp, 'scn_%d' % index)
+    os.makedirs(root, exist_ok=True)
+    jedi.settings.cache_directory = os.path.join(tmp, 'cache_%d' % index)       # not inside the project
+    file_texts = {}
+    if index < len(CORPUS):
+        col = Collector('corpus[%d]' % index)
+        b = dict(budget, tokens=budget['corpus_tokens'], complete=budget['corpus_tokens'])
+        broken = False
+        try:
+            ast.parse(to_lf(CORPUS[index]))
+        except SyntaxError:
+            broken = True
+        check_text(jedi, col, rng, CORPUS[index], None, jedi.Project(root), 'nopath', file_texts, b, broken=broken)
+        sample, how, n_versions = CORPUS[index], 'nopath', 1
+    else:
+        flavour = rng.choice(FLAVOURS)
+        how = rng.choice(['nopath', 'path_same', 'path_same', 'path_stale', 'path_only', 'bytes', 'interpreter'])
+        with_project = rng.random() < 0.6
+        broken = rng.random() < 0.2
+        layout = random_layout(rng)
+        n_blocks = rng.randrange(3, 7)
+        header = build_project(rng, root, flavour) if with_project else None
+        blocks, _ = generate_program(rng, flavour, n_blocks, header=header, broken=broken)
+        layout_seed = rng.random()
+        text = apply_layout(blocks, random.Random(layout_seed), layout)
+        if not broken:
+            try:
+                ast.parse(to_lf(text))
+            except SyntaxError as e:
+                raise RuntimeError('harness: generated program is not valid python: %r\n%s' % (e, text))
+        project = jedi.Project(root)     # always explicit: the default project would be the working directory
+        path = None if how in ('nopath', 'interpreter') else os.path.join(root, rng.choice(['main_buf.py', 'модуль.py', 'a b.py']))
+        enc = 'utf-8'
+        if how in ('path_only', 'bytes'):
+            enc = pick_encoding(rng, text)
+        versions = [text]
+        if path is not None and rng.random() < 0.6:
+            versions.append(edit_text(rng, blocks, layout, layout_seed))
+        col = Collector('scenario %d seed %s %s: %s ids, layout %r%s%s' % (
+            index, seed, tier, flavour, sorted(layout.items()), ', project' if with_project else '',
+            ', broken tail' if broken else ''))
+        replay = ()
+        for vi, vtext in enumerate(versions):
+            h = how
+            if os.environ.get('C17_DUMP'):      # debugging aid: keep the exact texts of the scenarios
+                with open(os.path.join(os.environ['C17_DUMP'], 'scn_%d_v%d.txt' % (index, vi)), 'w', newline='') as f:
+                    f.write(vtext)
+            if how == 'path_same':
+                write_source(path, vtext, 'utf-8', rng)
+            elif how == 'path_stale' and vi == 0:
+                # an unsaved buffer: the file keeps an older content through all versions of the buffer
+                write_source(path, 'stale_line = 0\n\n' + vtext.replace('=', '= ', 3), 'utf-8', rng)
+            elif how == 'path_only':
+                vtext = write_source(path, vtext, enc, rng)
+            elif how == 'bytes':
+                if enc not in ('utf-8', 'utf-8-sig'):
+                    vtext = write_source(path, vtext, enc, rng)
+                h = 'bytes:' + enc
+            step = check_text(jedi, col, rng, vtext, path, project, h, file_texts, budget, broken=broken,
+                              note=' (after an edit of the same path)' if vi else '', replay=replay)
+            replay = step.asked
+        sample, n_versions = text, len(versions)
+    return dict(violations=col.violations, counts=col.counts, evaluations=col.evaluations,
+                query_errors=col.query_errors, checked=col.checked_results, foreign=col.foreign_results,
+                sample=sample[:200], how=how + ('+edit' if n_versions > 1 else ''))
 
 
 def run(repo, seed, tier):
-    import jedi
-    import parso
-    violations = []
-    evaluations = 0
-    for code in CORPUS:
-        lines = parso.split_lines(code, keepends=True)
-        s = jedi.Script(code)
-        try:
-            names = s.get_names(all_scopes=True, definitions=True, references=True)
-        except Exception:
-            violations.append({'label': 'get_names raised', 'input': repr(code[:60]), 'observed': traceback.format_exc(limit=3)})
-            continue
-        # each identifier token exactly once
-        got = sorted((n.line, n.column, n.name) for n in names)
-        # tokenize works on universal newlines: compute expected positions from parso's own line split
-        want = []
-        for li, text in enumerate(lines, 1):
-            pass
-        toks = name_tokens(code.replace('\r\n', '\n').replace('\r', '\n')) if '\x0c' not in code else None
-        evaluations += 1
-        if toks is not None and '\r' not in code.replace('\r\n', ''):
-            want = sorted(t for t in toks)
-            if got != want:
-                violations.append({'label': 'get_names does not report each identifier token exactly once',
-                                   'input': repr(code[:80]),
-                                   'observed': 'extra %r missing %r' % (sorted(set(got) - set(want))[:5],
-                                                                        sorted(set(want) - set(got))[:5])})
-        try:
-            oracle = binding_oracle(code.replace('\r\n', '\n'))
-        except SyntaxError:
-            oracle = {}
-        for n in names:
-            evaluations += 1
-            try:
-                line_text = lines[n.line - 1]
-                if line_text[n.column:n.column + len(n.name)] != n.name:
-                    violations.append({'label': 'text at (line, column) is not the name', 'input': repr((code[:60], n.name)),
-                                       'observed': repr((n.line, n.column, line_text))})
-                if n.get_line_code() != line_text:
-                    violations.append({'label': 'get_line_code() is not the line of the name',
-                                       'input': repr((code[:60], n.name, n.line)),
-                                       'observed': repr((n.get_line_code(), line_text))})
-                st, en = n.get_definition_start_position(), n.get_definition_end_position()
-                if st is not None and en is not None:
-                    if not (st <= (n.line, n.column) and (n.line, n.column + len(n.name)) <= en):
-                        violations.append({'label': 'definition range does not enclose the name',
-                                           'input': repr((code[:60], n.name, n.line, n.column)),
-                                           'observed': repr((st, en))})
-                key = (n.line, n.column)
-                if key in oracle and n.is_definition() != oracle[key]:
-                    violations.append({'label': 'is_definition() disagrees with what binds',
-                                       'input': repr((code[:60], n.name, n.line, n.column)),
-                                       'observed': 'is_definition=%r, binds=%r' % (n.is_definition(), oracle[key])})
-            except Exception:
-                violations.append({'label': 'attribute raised', 'input': repr((code[:60], n.name)),
-                                   'observed': traceback.format_exc(limit=3)})
-        # results of positional queries point at their name
-        for (line, col, text) in (name_tokens(code.replace('\r\n', '\n')) if '\r' not in code.replace('\r\n', '') else []):
-            if tier == 'quick' and (line + col) % 3:
-                continue
-            for q in ('goto', 'get_references'):
-                evaluations += 1
-                try:
-                    for r in getattr(s, q)(line, col):
-                        if r.module_path is None and r.line is not None and not r.in_builtin_module():
-                            lt = lines[r.line - 1]
-                            if lt[r.column:r.column + len(r.name)] != r.name:
-                                violations.append({'label': '%s result does not point at its name' % q,
-                                                   'input': repr((code[:60], line, col)),
-                                                   'observed': repr((r.name, r.line, r.column, lt))})
-                except RecursionError:
-                    pass
-                except Exception:
-                    pass        # totality is C01's business
-    seen = {}
-    for v in violations:
-        seen.setdefault(v['label'], []).append(v)
+    import multiprocessing
+    import jedi  # noqa: F401  (imported before the fork so that every worker uses the tree under test)
+    tier = tier if tier in BUDGETS else 'quick'
+    tmp = os.environ.get('STANDIN_TMP')
+    own_tmp = None
+    if not tmp:
+        import tempfile
+        own_tmp = tmp = tempfile.mkdtemp(prefix='c17_', dir='/var/tmp')
+    n = BUDGETS[tier]['scenarios']
+    jobs = [(repo, seed, tier, i, tmp) for i in range(n)]
+    workers = max(2, min(14, (os.cpu_count() or 4) - 2))
+    try:
+        ctx = multiprocessing.get_context('fork')
+        with ctx.Pool(workers) as pool:
+            results = pool.map(run_scenario, jobs, chunksize=1)
+    finally:
+        if own_tmp:
+            import shutil
+            shutil.rmtree(own_tmp, ignore_errors=True)
+    violations, counts = [], {}
+    ev = errs = checked = foreign = 0
+    per_kind = {}
+    hows = {}
+    for r in results:
+        hows[r['how']] = hows.get(r['how'], 0) + 1
+        ev += r['evaluations']
+        errs += r['query_errors']
+        checked += r['checked']
+        foreign += r['foreign']
+        for k, v in r['counts'].items():
+            counts[k] = counts.get(k, 0) + v
+        for v in r['violations']:
+            k = (v['label'], v.pop('_kind'))
+            per_kind[k] = per_kind.get(k, 0) + 1
+            if per_kind[k] <= 3 and len(violations) < 60:
+                violations.append(v)
     return {'name': 'C17.positions', 'contract': 'C17.positions',
-            'evaluations': evaluations, 'distinct_nontrivial': evaluations,
-            'rule': '%d corpus texts (LF/CRLF, tabs, form feed, continuation lines, unicode identifiers, no final newline, '
-                    'subscript/attribute targets, walrus, comprehension, except-as, with-as) x all names of get_names and '
-                    'goto/get_references results; oracles: the text itself, tokenize, ast contexts' % len(CORPUS),
-            'samples': [c[:80] for c in CORPUS[:2]], 'violations': violations[:300],
-            'violation_counts': {k: len(v) for k, v in seen.items()}}
+            'evaluations': ev, 'distinct_nontrivial': checked,
+            'rule': '%d corpus texts + %d generated programs (3-6 random blocks out of %d statement templates: multi-target / '
+                    'subscript / attribute assignments, all parameter kinds, decorators, classes, doctest code in docstrings, '
+                    'continuation lines, comprehensions, lambda, walrus, imports, f-strings, async, call before def, soft '
+                    'keywords; identifiers ascii / latin / cyrillic / cjk / non-BMP / mixed; layouts: LF, CRLF, CR, mixed line '
+                    'ends, tab / 2 / 4 / 8 space indentation, form feeds, with and without final newline; 20%% with a broken '
+                    'tail) handed to Script without path, to Interpreter, to Script with path (file identical / stale), path only, as bytes in a '
+                    'declared encoding; 60%% inside a project on disk (helper module, package, a file only reachable by the '
+                    'text search; utf-8, BOM, latin-1, gbk, cp1251, shift_jis with coding cookie); 60%% of the path scenarios '
+                    'followed by an edited version of the same path (blocks inserted / removed) which first repeats at once '
+                    'the queries of the first version at the positions whose preceding text is unchanged.  '
+                    'Per text: get_names (all flag combinations), '
+                    'defined_names, parent, Name.goto, Name.infer, and on seeded random samples of identifier tokens / word positions (also in '
+                    'docstrings, comments, strings) / call brackets: goto, goto(follow_imports), infer, get_references (project '
+                    'and file scope), help, get_context, complete (plain and fuzzy), get_signatures + params + bracket_start, '
+                    'search, complete_search.  Every returned object that points into the buffer or a readable .py file is '
+                    'checked: text at (line, column) == name, get_line_code(before, after) == those physical lines, definition '
+                    'range encloses the name and lies in the text, is_definition() == ast binding status.  Oracles: the text '
+                    '(own physical line splitter), stdlib tokenize, ast contexts, tokenize.detect_encoding for files.  '
+                    '%d results checked (%d of them in other files), %d queries raised (ignored here, see C01); '
+                    'texts per way of handing over: %s.'
+                    % (len(CORPUS), n - len(CORPUS), len(TEMPLATES), checked, foreign, errs,
+                       ', '.join('%s %d' % kv for kv in sorted(hows.items()))),
+            'samples': [r['sample'] for r in results[len(CORPUS):len(CORPUS) + 2]],
+            'violations': violations, 'violation_counts': counts}
